@@ -220,6 +220,16 @@ def make_faults():
         return ("%s::%s" % (it["name"], m["name"]), 1)
     F.append(("struct-self-by-reference", "self", struct_self_by_ref))
 
+    def enum_self_by_ref(prog, draw):
+        """structs.md: structs and enums may have methods which capture `self` by value (only opaques live behind references)"""
+        ms = [x for x in methods_of(prog) if x[1]["kind"] == "enum"]
+        if not ms:
+            return None
+        mod, it, impl, m = draw(st.sampled_from(ms))
+        m["self"] = ["ref", None, draw(st.booleans())]
+        return ("%s::%s" % (it["name"], m["name"]), 1)
+    F.append(("enum-self-by-reference", "self", enum_self_by_ref))
+
     def out_struct_self(prog, draw):
         ms = [x for x in methods_of(prog) if x[1]["kind"] == "struct" and x[1].get("out")]
         if not ms:
